@@ -101,14 +101,16 @@ type GSchema struct {
 	Mutation     string
 	Subscription string
 	SchemaBlock  bool
-	SchemaDirs   string
-	BadRoot      string   // fault: schema block names a missing type
-	Extra        []string // raw chunks: extensions of built-in (prelude) types
-	Faults       []string
-	FaultyTypes  map[string]bool // types InjectSchemaFaults changed
-	dirsFirst    bool
-	dirCut       int
-	idx          map[string]*GType
+	// ExtendSchemaMut: no schema definition; "extend schema { mutation: <Mutation> }"
+	ExtendSchemaMut bool
+	SchemaDirs      string
+	BadRoot         string   // fault: schema block names a missing type
+	Extra           []string // raw chunks: extensions of built-in (prelude) types
+	Faults          []string
+	FaultyTypes     map[string]bool // types InjectSchemaFaults changed
+	dirsFirst       bool
+	dirCut          int
+	idx             map[string]*GType
 }
 
 func (s *GSchema) T(name string) *GType { return s.idx[name] }
@@ -421,6 +423,13 @@ func GenSchema(r *Rng) *GSchema {
 		}
 		objsAndRoots = append(objsAndRoots, s.add(&GType{Kind: "OBJECT", Name: s.Subscription}))
 	}
+	if !s.SchemaBlock && s.Mutation == "" && r.Chance(1, 4) {
+		// no schema definition, but a schema EXTENSION that binds the mutation
+		// root to a type of another name
+		s.Mutation = nm.fresh() + "Cmds"
+		s.ExtendSchemaMut = true
+		objsAndRoots = append(objsAndRoots, s.add(&GType{Kind: "OBJECT", Name: s.Mutation}))
+	}
 	if s.SchemaBlock && s.Mutation == "" && r.Chance(1, 2) {
 		// a conventionally named type that the schema block does NOT bind: a
 		// mutation against this schema has no root, whatever the type is called
@@ -660,6 +669,34 @@ func GenSchema(r *Rng) *GSchema {
 				Pick(r, ifaces).Dirs = use
 			case "INPUT_OBJECT":
 				Pick(r, inputs).Dirs += use
+			case "ARGUMENT_DEFINITION":
+				o := Pick(r, objs)
+				if f := Pick(r, o.Fields); len(f.Args) > 0 {
+					if a := Pick(r, f.Args); !strings.Contains(a.Dirs, "@"+d.Name) || d.Repeatable {
+						a.Dirs += use
+					}
+				}
+			case "INPUT_FIELD_DEFINITION":
+				in := Pick(r, inputs)
+				if f := Pick(r, in.Fields); !strings.Contains(f.Dirs, "@"+d.Name) || d.Repeatable {
+					f.Dirs += use
+				}
+			case "ENUM", "SCALAR", "UNION":
+				if c := s.byKind(l); len(c) > 0 {
+					if t := Pick(r, c); !strings.Contains(t.Dirs, "@"+d.Name) || d.Repeatable {
+						t.Dirs += use
+					}
+				}
+			case "ENUM_VALUE":
+				if c := s.byKind("ENUM"); len(c) > 0 {
+					e := Pick(r, c)
+					if v := Pick(r, e.Values); !strings.Contains(e.ValueDirs[v], "@"+d.Name) || d.Repeatable {
+						if e.ValueDirs == nil {
+							e.ValueDirs = map[string]string{}
+						}
+						e.ValueDirs[v] += use
+					}
+				}
 			}
 		}
 	}
@@ -967,6 +1004,9 @@ func (s *GSchema) RenderMarked(r *Rng, front bool) (string, []int) {
 		}
 		x += "}\n"
 		chunks = append(chunks, x)
+	}
+	if s.ExtendSchemaMut && !s.SchemaBlock {
+		chunks = append(chunks, "extend schema {\n  mutation: "+s.Mutation+"\n}\n")
 	}
 	chunks = append(chunks, s.Extra...)
 	for len(faulty) < len(chunks) {
